@@ -62,6 +62,9 @@ def synth_cases(draw):
         rc = draw(st.sampled_from([1e-9, 1e-6, 1e-3, float(sig[keep - 1] / 4.0)]))
     else:
         rc = float(math.sqrt(sig[keep - 1] * sig[keep]))
+    if spec != "sparse" and draw(st.integers(0, 11)) == 0:
+        # a conditioning above every singular value (relative to the largest): nothing is retained, the estimator is 0
+        rc = draw(st.sampled_from([1.5, 2.0, 10.0, 1e3]))
     return {"n_on": n_on, "n_off": n_off, "sig": sig, "rc": rc, "seed": seed, "dtype": dtype, "spec": spec, "noise": draw(st.sampled_from([0.0, 0.3]))}
 
 
@@ -108,6 +111,11 @@ def judge(ctx, R, C, n_on, rc, dtype, rng, label):
     keep = np.abs(ev) > cut
     # unambiguous membership (constructed); bail out otherwise
     near = (np.abs(ev) > cut / 1.25) & (np.abs(ev) < cut * 1.25) if cut > 0 else np.zeros_like(keep)
+    if not keep.any() and rc >= 1.25 and not near.any():
+        # nothing retained: on the (whole) discarded space R vanishes
+        ctx.classes["nothing_retained"] += 1
+        ctx.require(not np.any(R), "%s: svd_conditioning=%r discards every singular value (all are <= %r times the largest), yet R is not zero: max|R| = %.3g" % (label, rc, rc, float(np.max(np.abs(R)))))
+        return True
     if near.any() or not keep.any():
         ctx.reject("cutoff_inside_spectrum")
         return False
